@@ -43,7 +43,14 @@ func checkGiveUpOnlyIdle(p *load.Program, r *kit.Report, rule string) {
 		if _, isC := kit.ConstInt(b.Y); !isC {
 			return false, false
 		}
-		if ph, ok := b.X.(*ssa.Phi); ok {
+		x := b.X
+		if add, ok := x.(*ssa.BinOp); ok && add.Op == token.ADD {
+			// compared right after the increment: `counter++; if counter > K`
+			if k, isC := kit.ConstInt(add.Y); isC && k == 1 {
+				x = add.X
+			}
+		}
+		if ph, ok := x.(*ssa.Phi); ok {
 			if d, _ := kit.DominatedByEdges(f, giveUp, []kit.Edge{{From: b.Block(), Succ: 0}}, nil, p.Pos); d {
 				ctr = ph
 				return true, true
